@@ -358,6 +358,13 @@ impl NNum {
 
     pub fn pow_num(&self, other: &NNum) -> NNum {
         match (self, other) {
+            // zero to a negative power is a division by zero: fall back to float infinity like `/`
+            (NNum::Int(a), NNum::Int(b)) if a.is_zero() && b.is_negative() => {
+                NNum::Float(f64::INFINITY)
+            }
+            (NNum::Rational(a), NNum::Int(b)) if a.is_zero() && b.is_negative() => {
+                NNum::Float(f64::INFINITY)
+            }
             (NNum::Int(a), NNum::Int(b)) => pow_big_ints(a, b),
             (NNum::Int(a), NNum::Rational(b)) => {
                 powf_pdnum(nint_to_f64_or_inf(a), rational_to_f64_or_inf(b))
